@@ -7,11 +7,11 @@ from ..prng import Rng
 from .. import core
 from .. import genv as G
 
-PROBES = ["abc", "xb", "zzz", "missing.one", "a", "", "cls-x", "b.c"]
+PROBES = ["abc", "xb", "zzz", "missing.one", "a", "", "cls-x", "b.c", "addon x", "addonx", "legacy"]
 GOOD_PATS = [".*", "^a", "b$", "^zzz$", "one", "^missing\\.one$", "cls-x", "^b\\.c$"]
 # outside the modelled sub-language (judged on the implementation's own reports only): each compiles alone, but the
 # two \\w{200} patterns exceed the regex crate's compiled-size limit as one set
-RICH_PATS = [["\\w{200}", "a\\w{200}"], ["\\w{200}"], ["^\\w+$"], ["(?i)^ABC$"], ["^.{2}$", "\\d"], ["a\\w{200}", "\\w{200}", "^a"]]
+RICH_PATS = [["^addon x$"], ["legacy#("], ["^a  b$", "x # y"], ["(?i)ABC", "^xb$"], ["\\w{200}", "a\\w{200}"], ["\\w{200}"], ["^\\w+$"], ["(?i)^ABC$"], ["^.{2}$", "\\d"], ["a\\w{200}", "\\w{200}", "^a"]]
 BAD_PATS = ["(", "[a", "*"]
 
 
@@ -168,6 +168,12 @@ class C20(Prop):
             route = r.choice(["file", "opts"])
             c = C(route, opts, steps)
             yield c
+            if i % 8 == 5:
+                rp = list(r.choice(RICH_PATS))
+                o2 = [o for o in opts if o[0] not in ("ignore_class_notfound_regexp", "ignore_class_notfound")] + [("ignore_class_notfound", True), ("ignore_class_notfound_regexp", rp)]
+                c2 = C(r.choice(["file", "opts"]), r.shuffle(o2), [["set_patterns", rp]] if r.chance(1, 2) else [])
+                c2["rich_options"] = True
+                yield c2
             if i % 4 == 0:
                 yield from ctor_pair(r.choice(["n1", "mynodes", "sub/n", "x_y", "cls-nodes", "c1x", "mycls.d", "sub/c-n"]),
                                      r.choice(["c1", "mycls", "sub/c", "cls"]), r.chance(1, 2), r.choice(["file", "opts"]))
@@ -204,7 +210,7 @@ class C20(Prop):
             elif "ok" in d and d["ok"] != f["ok"]:
                 why.append("dict and file routes give different configurations: %s vs %s" % (d["ok"], f["ok"]))
             return dict(agree=True, spec_ok=None, impl_oracle=(False if why else None), concrete=bool(why), why="; ".join(why))
-        if "bad" in reply and "outside the modelled regex" in str(reply["bad"]) and isinstance(impl, dict) and "build" in impl:
+        if (req.get("rich_options") or ("bad" in reply and "outside the modelled regex" in str(reply["bad"]))) and isinstance(impl, dict) and "build" in impl:
             # patterns the model does not cover: only the statement's self-consistency clause is evaluated, on the
             # implementation's own reports (a failed call must leave reported = effective)
             why, oracle = [], None
